@@ -715,6 +715,12 @@ static int addRequest(KSI_AsyncClient *c, KSI_AsyncHandle *handle, void *req,
 		goto cleanup;
 	}
 
+	/* Only one configuration request can be outstanding: its response bears no request id. */
+	if (hasConfig && c->serverConf != NULL && (c->serverConf->aggrReq != NULL || c->serverConf->extReq != NULL)) {
+		KSI_pushError(c->ctx, res = KSI_ASYNC_REQUEST_CACHE_FULL, "A configuration request is already pending.");
+		goto cleanup;
+	}
+
 	/* Cleanup the handle in case it has been added repeteadly. */
 	KSI_free(handle->raw);
 	handle->raw = NULL;
@@ -820,6 +826,8 @@ static int addRequest(KSI_AsyncClient *c, KSI_AsyncHandle *handle, void *req,
 			confHandle = handle;
 		}
 
+		/* A push configuration notice that has not been returned yet is superseded by the request. */
+		if (c->serverConf != NULL) c->received--;
 		KSI_AsyncHandle_free(c->serverConf);
 		c->serverConf = confHandle;
 		confHandle = NULL;
